@@ -1,12 +1,12 @@
 SPECIFICATION Spec
 CONSTANTS
-  Mode = "bytes"
+  Mode = "dec"
   Step = 257
-  DecRange = 70000
+  DecRange = 200
   U8 <- Utf8
-  WR <- WriteBug
+  WR <- Write
   TD <- ToDec
   NT <- NumText
-  NTL <- NumTextLoc
-INVARIANTS LawBytesRoundTrip
+  NTL <- NumTextLocBug
+INVARIANTS LawDecLocRoundTrip
 CHECK_DEADLOCK FALSE
